@@ -138,6 +138,49 @@ func c18GenTree(r *Rng) c18Tree {
 		t.Reqs[i].MCol = strings.Index(text, ".id") + 2
 		lines = append(lines, text)
 	}
+	// half of the main files have lines with two or three module strings (a multiple assignment of requires, two statements on
+	// one line): every string of the line is a module string of its own
+	if rp := r.Fork(0x70616972); rp.Bool() {
+		var reqs []c18Req
+		for _, q := range t.Reqs {
+			if q.Kind == "require" || q.Kind == "require-nopar" {
+				reqs = append(reqs, q)
+			}
+		}
+		for k := rp.Range(1, 2); k > 0 && len(reqs) >= 2; k-- {
+			n := rp.Range(2, 3)
+			var vars, calls []string
+			var picked []c18Req
+			for j := 0; j < n; j++ {
+				q := reqs[rp.Intn(len(reqs))]
+				picked = append(picked, q)
+				vars = append(vars, fmt.Sprintf("mp%d_%d", len(lines), j))
+				if q.Kind == "require" {
+					calls = append(calls, fmt.Sprintf("require(\"%s\")", q.Module))
+				} else {
+					calls = append(calls, fmt.Sprintf("require \"%s\"", q.Module))
+				}
+			}
+			text := "local " + strings.Join(vars, ", ") + " = " + strings.Join(calls, ", ")
+			if rp.Chance(1, 3) {
+				text = "local " + vars[0] + " = " + calls[0]
+				for j := 1; j < n; j++ {
+					text += "; local " + vars[j] + " = " + calls[j]
+				}
+			}
+			from := 0
+			for j, q := range picked {
+				at := strings.Index(text[from:], "\""+q.Module+"\"") + from
+				from = at + len(q.Module) + 2
+				pos := "first"
+				if j > 0 {
+					pos = "later"
+				}
+				t.Reqs = append(t.Reqs, c18Req{Kind: q.Kind, Module: q.Module, Line: len(lines), Col: at + 1 + len(q.Module)/2, Class: q.Class + "|" + pos + "-of-several-on-its-line", MLine: -1})
+			}
+			lines = append(lines, text)
+		}
+	}
 	// a third of the main files end with a module string on their last line and no line break after it
 	if len(rels) > 0 && r.Fork(0x656f66).Chance(1, 3) {
 		rel := rels[r.Fork(0x656f67).Intn(len(rels))]
@@ -264,7 +307,10 @@ func c18Check(c *Ctx, t c18Tree, r *Rng, tag string, dotted bool) {
 			has6 := false
 			for _, d := range view {
 				if d.Type == 6 && d.Range.Start.Line == rq.Line {
-					has6 = true
+					// (a line can hold several module strings: the diagnostic that covers this one, or the only one of the line)
+					if !strings.Contains(rq.Class, "-of-several-on-its-line") || (d.Range.Start.Character <= rq.Col && rq.Col <= d.Range.End.Character) {
+						has6 = true
+					}
 				}
 			}
 			want6 := len(cands) == 0 && !so
